@@ -244,6 +244,100 @@ def check_one(sh, recipe, N, width, sort):
 ENVB = V.BuildEnv(CLASSES)
 
 
+# ------------------------------------------------------------ truncation together with comments / trailing comments
+def rand_commented(rng, depth, lf, cnt):
+    """ordered containers only (list / tuple / dict): the expected comment word sequence is then fully determined"""
+    if depth == 0 or rng.random() < 0.35:
+        r = lf.next()
+    else:
+        k = rng.choice(['list', 'tuple', 'dict', 'list'])
+        n = rng.randint(0, 5)
+        ch = [rand_commented(rng, depth - 1, lf, cnt) for _ in range(n)]
+        if k == 'dict':
+            r = ['dict', [[lf.next(), c] for c in ch]]
+        else:
+            r = [k, ch]
+        if rng.random() < 0.3 and n:
+            cnt[0] += 1
+            r = ['tcomment', r, 'tc%d' % cnt[0]]
+    if rng.random() < 0.3:
+        cnt[0] += 1
+        r = ['comment', r, 'cm%d' % cnt[0]]
+    return r
+
+
+def ref_commented(r, N, words):
+    """returns the truncated plain value; appends the expected comment words in output order"""
+    k = r[0]
+    if k == 'comment':
+        words.append(r[2])
+        return ref_commented(r[1], N, words)
+    tc = None
+    if k == 'tcomment':
+        tc = r[2]
+        r = r[1]
+        k = r[0]
+    if k in ('list', 'tuple'):
+        kept = [ref_commented(c, N, words) for c in r[1][:N]]
+        out = kept if k == 'list' else tuple(kept)
+        n = len(r[1])
+    elif k == 'dict':
+        out = {}
+        for kk, vv in r[1][:N]:
+            out[V.build(kk)] = ref_commented(vv, N, words)
+        n = len(r[1])
+    else:
+        return V.build(r)
+    if n > N:
+        words.extend(['...and', str(n - N), 'more', 'elements' + ('.' if tc else '')])
+    if tc and n:
+        words.append(tc)
+    return out
+
+
+def check_commented(sh, i):
+    rng = V.rng_for('c10c', sh.seed, i)
+    cnt = [0]
+    recipe = rand_commented(rng, 3, Leafs(rng.random() < 0.5), cnt)
+    base = recipe
+    while base[0] in ('comment', 'tcomment'):
+        base = base[1]
+    if base[0] not in ('list', 'tuple', 'dict') or not cnt[0]:
+        return
+    value = V.build(recipe, ENVB)
+    for N in (1, 2, 3, 10 ** 9):
+        width = rng.choice([1, 20, 79])
+        case = {'commented_recipe': recipe, 'max_seq_len': N, 'width': width, 'i': i, 'seed': sh.seed}
+        want_words = []
+        ref = ref_commented(recipe, N, want_words)
+        try:
+            text, ws = M.pp(value, width=width, max_seq_len=N)
+        except Exception as e:
+            sh.violation('pformat-raised-with-comments', repr(e), case)
+            return
+        if ws:
+            sh.violation('warning-with-comments', ws[0][1][:200], case)
+            return
+        try:
+            got = V.evaluate(text, NS)
+        except Exception as e:
+            sh.violation('eval-error-with-comments', '%r: %r' % (e, text[:300]), case)
+            return
+        if V.canon(got) != V.canon(ref):
+            sh.violation('wrong-elements-with-comments', 'evaluates to %r, expected %r; output=%r' % (got, ref, text[:300]), case)
+            return
+        got_words = [w for run, _ in observed_notices(text) for w in run]
+        if got_words != want_words:
+            sh.violation('comment-words-with-truncation', 'comment words %r, expected %r; output=%r' % (got_words[:30], want_words[:30], text[:400]), case)
+            return
+        sh.counters['commented truncations verified'] += 1
+        if any(w == '...and' for w in want_words) and any(w.startswith(('cm', 'tc')) for w in want_words):
+            sh.counters['prints with both a truncation notice and user comments'] += 1
+        if any(w == 'elements.' for w in want_words):
+            sh.counters['notices joined with a trailing comment'] += 1
+        sh.case(('commented', i, N, width), nontrivial=True)
+
+
 def run_recipe(sh, recipe, idx, quick, origin):
     value = V.build(recipe, ENVB)
     ml = maxlen(value)
@@ -280,11 +374,16 @@ def run_shard(sh):
                 continue
             run_recipe(sh, recipe, idx, quick, 'random-3-level')
             sh.counters['random shapes'] += 1
+    for i in range(2500 if quick else 80000):
+        idx += 1
+        if sh.mine(idx):
+            check_commented(sh, i)
 
 
 def finalize(m):
     for name in ('notices verified', 'prints with truncation', 'prints with nested truncations', 'prints with max_seq_len=None',
-                 'word-wrapped notices (width 1)', 'prints without truncation'):
+                 'word-wrapped notices (width 1)', 'prints without truncation', 'commented truncations verified',
+                 'prints with both a truncation notice and user comments', 'notices joined with a trailing comment'):
         if not m.counters.get(name):
             m.inconclusive.append('monitor never reached: ' + name)
 
@@ -294,6 +393,16 @@ def replay(wit):
     from ..runner import Shard
     sh = Shard('replay', 0, 0, 1)
     c = wit['case']
+    if 'commented_recipe' in c:
+        sh.seed = c['seed']
+        check_commented(sh, c['i'])
+        import prettyprinter
+        print(prettyprinter.pformat(V.build(c['commented_recipe'], ENVB), width=c['width'], max_seq_len=c['max_seq_len']))
+        for v in sh.violations:
+            print('VIOLATED', v['key'], v['what'][:600])
+        if not sh.violations:
+            print('holds on this case')
+        return not sh.violations
     print('value :', repr(V.build(c['recipe'], ENVB))[:400], ' max_seq_len=%r width=%r sort=%r' % (c['max_seq_len'], c['width'], c['sort_dict_keys']))
     text = check_one(sh, c['recipe'], c['max_seq_len'], c['width'], c['sort_dict_keys'])
     print('output:', text)
